@@ -320,6 +320,12 @@ def run_cli(ctx, rng, spec, root):
                 for k in sorted(set(list(range(1, 8)) + [total // 2, total - 1, total, total + 1])):
                     if k < 1:
                         continue
+                    if k in (1, 4) and not empty:
+                        # no earlier successful run of the tool on this input
+                        shutil.rmtree(dest.dir, ignore_errors=True)
+                        dest = FmtDest(ctx, rng, fmt, exists, root)
+                        call = lambda: tool.main(QUIET + [tool_name, dest.inp])
+                        ctx.feature('cli_first_invocation_fails')
                     with faults.StreamFaultPatch(cls, k) as pt:
                         attempt(ctx, dest, call, {'injector': 'stream', 'entry': spec['entry'], 'k': k, 'fmt': fmt, 'exists': exists, 'empty': empty,
                                                   'verbosity': VERBOSITY[0]},
@@ -339,6 +345,12 @@ def run_cli(ctx, rng, spec, root):
         # that run legitimately rewrote the destination
         dest.snap = dest.snapshot()
         for k in range(1, total + 2):
+            if k % 4 == 1:
+                # a cart this command has never been run on before: the very first invocation is the one that fails
+                shutil.rmtree(dest.dir, ignore_errors=True)
+                dest = Dest(ctx, rng, fmt, True, root)
+                call = cli_call(spec['entry'], dest, root)
+                ctx.feature('cli_first_invocation_fails')
             with faults.StreamFaultPatch(cls, k) as pt:
                 attempt(ctx, dest, call, {'injector': 'stream', 'entry': spec['entry'], 'k': k, 'fmt': fmt, 'exists': True},
                         'stream', fired=lambda: pt.stream is not None and pt.stream.failed)
@@ -540,6 +552,8 @@ def gates(m, tier):
     for e in ('luamin_fmt', 'luafmt_fmt', 'writep8_fmt'):
         if f.get('cli_%s_stream_index' % e, 0) < 8:
             missed.append('CLI %s under-driven' % e)
+    if f.get('cli_first_invocation_fails', 0) < 10:
+        missed.append('first-ever invocation on a cart fails: %d' % f.get('cli_first_invocation_fails', 0))
     if f.get('cli_luafmt_stream_index', 0) < 5 or f.get('cli_build_stream_index', 0) < 5:
         missed.append('CLI overwrite paths under-driven')
     return missed
